@@ -579,7 +579,8 @@ Record sext := SExt {
   x_apierr : Z;       (* ... that returned an error *)
   x_pend : Z;         (* relevant txs of a burst sent by the peer and not yet read by monitorIncoming *)
   x_ptx : Z;          (* tx of the block whose processing is parked in the output fetcher (-1: none) *)
-  x_burst : Z         (* relevant txs of bursts (delivered, or going to be once the consumer is released) *)
+  x_burst : Z;        (* relevant txs of bursts (delivered, or going to be once the consumer is released) *)
+  x_inv : list (Z * (Z * (bool * bool)))   (* announced txs not held: (t, (getdata requests so far, (also tracked, window passed))) *)
 }.
 
 Record scn := Scn {
@@ -601,7 +602,7 @@ Record scn := Scn {
   s_x : sext
 }.
 
-Definition scn_init : scn := Scn sw_init true 0 false (-100) (-1) 0 0 false 0 0 0 0 [] (-1) (SExt [] 0 0 0 0 (-1) 0).
+Definition scn_init : scn := Scn sw_init true 0 false (-100) (-1) 0 0 false 0 0 0 0 [] (-1) (SExt [] 0 0 0 0 (-1) 0 []).
 
 Definition with_w (s : scn) (w : sw) : scn :=
   Scn w (s_listen s) (s_acc s) (s_popen s) (s_base s) (s_sent s) (s_served s) (s_tip s) (s_ready s) (s_unconf s)
@@ -644,7 +645,8 @@ Inductive sop :=
 | SHold (k : Z) | SRelease (e : bool)
 | SStop | SStopAsync | SStopWait | SQuiet | SStored | SAnnounced | SCounts | SDrain | SSleep
 | SApiTx (t : Z) (rel : bool) | SApiFill (n : Z) | SApiResult | SBlockInv | SRestart
-| STxBlock (t : Z) (rel : bool) | SBurstRel (n : Z) | SDelivered (k : Z).
+| STxBlock (t : Z) (rel : bool) | SBurstRel (n : Z) | SDelivered (k : Z)
+| SInv (t : Z) | STxAge | SGetData (t : Z).
 
 Fixpoint iter {A} (n : nat) (f : A -> A) (x : A) : A := match n with O => x | S n' => iter n' f (f x) end.
 
@@ -685,7 +687,7 @@ Definition with_x (s : scn) (x : sext) : scn :=
       (s_peers s) (s_hold s) (s_held s) (s_ann s) (s_stopcalls s) x.
 Definition seen (s : scn) (t : Z) : bool := existsb (Z.eqb t) (x_seen (s_x s)).
 Definition add_seen (s : scn) (t : Z) : sext :=
-  let x := s_x s in SExt (x_seen x ++ [t]) (x_apin x) (x_apiok x) (x_apierr x) (x_pend x) (x_ptx x) (x_burst x).
+  let x := s_x s in SExt (x_seen x ++ [t]) (x_apin x) (x_apiok x) (x_apierr x) (x_pend x) (x_ptx x) (x_burst x) (x_inv x).
 Definition ap_idle (w : sw) : bool := match t_ap (w_thr w) with TNone => true | _ => false end.
 (* one call of Node.HandleTx by the application, and whatever it enables *)
 Definition api_call (s : scn) (w : sw) : sw := ssettle s (sapply w AApiTx).
@@ -701,6 +703,37 @@ Fixpoint api_calls (n : nat) (s : scn) (w : sw) (ok err : Z) : sw * Z * Z :=
         else (w1, ok, err)
       else (w, ok, err)
   end.
+
+(* announcements of txs by the trusted peer (InvHandler, MemPool.AddRequest, TxTracker): what C14 demands *)
+Definition with_inv (s : scn) (l : list (Z * (Z * (bool * bool)))) : scn :=
+  let x := s_x s in
+  with_x s (SExt (x_seen x) (x_apin x) (x_apiok x) (x_apierr x) (x_pend x) (x_ptx x) (x_burst x) l).
+Fixpoint inv_find (t : Z) (l : list (Z * (Z * (bool * bool)))) : option (Z * (bool * bool)) :=
+  match l with
+  | [] => None
+  | (t', v) :: l' => if t' =? t then Some v else inv_find t l'
+  end.
+Fixpoint inv_set (t : Z) (v : Z * (bool * bool)) (l : list (Z * (Z * (bool * bool)))) : list (Z * (Z * (bool * bool))) :=
+  match l with
+  | [] => [(t, v)]
+  | (t', v') :: l' => if t' =? t then (t, v) :: l' else (t', v') :: inv_set t v l'
+  end.
+(* an inventory announcement: ask if not asked within the window, otherwise remember the announcement *)
+Definition inv_announce (t : Z) (l : list (Z * (Z * (bool * bool)))) :=
+  match inv_find t l with
+  | None => inv_set t (1, (false, false)) l
+  | Some (n, (tr, aged)) => if aged then inv_set t (n + 1, (tr, false)) l else inv_set t (n, (true, false)) l
+  end.
+(* the tracker check at the connection's next activity: every remembered announcement whose request window
+   has passed is asked for again (and no longer remembered) *)
+Definition inv_check (l : list (Z * (Z * (bool * bool)))) :=
+  map (fun e => match e with
+                | (t, (n, (tr, aged))) => if tr && aged then (t, (n + 1, (false, false))) else e
+                end) l.
+Definition inv_age (l : list (Z * (Z * (bool * bool)))) :=
+  map (fun e => match e with (t, (n, (tr, _))) => (t, (n, (tr, true))) end) l.
+Definition inv_count (t : Z) (l : list (Z * (Z * (bool * bool)))) : Z :=
+  match inv_find t l with Some (n, _) => n | None => 0 end.
 
 Definition sstep (s : scn) (o : sop) : scn * obs :=
   let w := s_w s in
@@ -818,7 +851,7 @@ Definition sstep (s : scn) (o : sop) : scn * obs :=
       let seen1 := if (s_held s =? 2) && negb e && (0 <=? x_ptx x) then x_seen x ++ [x_ptx x] else x_seen x in
       let s1 := Scn w1 (s_listen s) (s_acc s) (s_popen s) (s_base s) (s_sent s) (s_served s) (s_tip s) (s_ready s) u
                     (s_peers s) 0 0 (s_ann s) (s_stopcalls s)
-                    (SExt seen1 (x_apin x) (x_apiok x) (x_apierr x) 0 (-1) (x_burst x)) in
+                    (SExt seen1 (x_apin x) (x_apiok x) (x_apierr x) 0 (-1) (x_burst x) (x_inv x)) in
       let w2 := ssettle s1 w1 in
       (* monitorIncoming now reads what the peer had sent meanwhile *)
       let w3 := iter (Z.to_nat (x_pend x)) (fun w0 => if alive (with_w s1 w0) then deliver s1 w0 [KTx] else w0) w2 in
@@ -862,14 +895,14 @@ Definition sstep (s : scn) (o : sop) : scn * obs :=
       else fin (with_w s (api_call s w)) [OK; 0; 0]
   | SApiFill n =>
       let '(w1, ok, err) := api_calls (Z.to_nat n) s w 0 0 in
-      fin (with_x (with_w s w1) (SExt (x_seen (s_x s)) n ok err (x_pend (s_x s)) (x_ptx (s_x s)) (x_burst (s_x s)))) [OK; ok + err; b2z (negb (ap_idle w1))]
+      fin (with_x (with_w s w1) (SExt (x_seen (s_x s)) n ok err (x_pend (s_x s)) (x_ptx (s_x s)) (x_burst (s_x s)) (x_inv (s_x s)))) [OK; ok + err; b2z (negb (ap_idle w1))]
   | SApiResult =>
       let x := s_x s in
       if ap_idle w then
         (* the call that was waiting has returned (it was queued); the goroutine makes its remaining calls *)
         let waited := if x_apiok x + x_apierr x <? x_apin x then 1 else 0 in
         let '(w1, ok, err) := api_calls (Z.to_nat (x_apin x - x_apiok x - x_apierr x - waited)) s w (x_apiok x + waited) (x_apierr x) in
-        fin (with_x (with_w s w1) (SExt (x_seen x) (x_apin x) ok err (x_pend x) (x_ptx x) (x_burst x))) [OK; b2z (ap_idle w1); ok; err; 0]
+        fin (with_x (with_w s w1) (SExt (x_seen x) (x_apin x) ok err (x_pend x) (x_ptx x) (x_burst x) (x_inv x))) [OK; b2z (ap_idle w1); ok; err; 0]
       else fin s [OK; 0; x_apiok x; x_apierr x; 0]
   | SBlockInv =>
       if alive s then
@@ -893,7 +926,7 @@ Definition sstep (s : scn) (o : sop) : scn * obs :=
               let x := s_x s in
               fin (Scn w3 (s_listen s) (s_acc s) (s_popen s) (s_base s) (base + 1) (s_served s + 1) h (s_ready s) (s_unconf s)
                        (s_peers s) (s_hold s) 2 (s_ann s ++ [h]) (s_stopcalls s)
-                       (SExt (x_seen x) (x_apin x) (x_apiok x) (x_apierr x) (x_pend x) (if new then t else -1) (x_burst x)))
+                       (SExt (x_seen x) (x_apin x) (x_apiok x) (x_apierr x) (x_pend x) (if new then t else -1) (x_burst x) (x_inv x)))
                   [OK; 1; 1; 0]
             else
               let w3 := ssettle s (sapply (sapply (sapply w2 (AStep PB KCall 0)) (AStep PB KCall 0)) (AStep PB KEnd 0)) in
@@ -912,8 +945,21 @@ Definition sstep (s : scn) (o : sop) : scn * obs :=
       let full := (scap <=? x_len (w_ch w1)) && at_send CTx (t_mi (w_thr w1)) in
       fin (Scn w1 (s_listen s) (s_acc s) (s_popen s) (s_base s) (s_sent s) (s_served s) (s_tip s) (s_ready s) (s_unconf s + n)
                (s_peers s) (s_hold s) (s_held s) (s_ann s) (s_stopcalls s)
-               (SExt (x_seen x) (x_apin x) (x_apiok x) (x_apierr x) pend (x_ptx x) (x_burst x + n))) [OK; b2z full]
+               (SExt (x_seen x) (x_apin x) (x_apiok x) (x_apierr x) pend (x_ptx x) (x_burst x + n) (x_inv x))) [OK; b2z full]
   | SDelivered k => fin s [OK; zlen (x_seen (s_x s)) + x_burst (s_x s)]
+  | SInv t =>
+      if alive s && s_ready s then
+        let l := inv_check (inv_announce t (x_inv (s_x s))) in
+        let w1 := deliver s (deliver s (deliver s w [KOut]) [KOut]) [KOut] in     (* inv (-> getdata), two pings *)
+        fin (with_inv (with_w s w1) l) [OK; inv_count t l]
+      else fin s [OK; inv_count t (x_inv (s_x s))]
+  | STxAge => fin (with_inv s (inv_age (x_inv (s_x s)))) [OK]
+  | SGetData t =>
+      if alive s then
+        let l := if s_ready s then inv_check (x_inv (s_x s)) else x_inv (s_x s) in
+        let w1 := deliver s (deliver s w [KOut; KOut]) [KOut] in
+        fin (with_inv (with_w s w1) l) [OK; 1; inv_count t l]
+      else fin s [OK; 0; inv_count t (x_inv (s_x s))]
   | SRestart =>
       (* a new process on the same storage: what was saved is what it knows *)
       let s1 := Scn sw_init (s_listen s) 0 false (-100) (-1) (s_tip s) (s_tip s) false (s_unconf s)
@@ -941,6 +987,8 @@ Definition srun (ops : list sop) : list obs := srun_from scn_init ops.
    909 a call of the public API did not return although nothing was being held
    910 a relevant tx was delivered to the handlers as a new tx twice (also across a restart on the same storage)
    911 fewer distinct new-tx notifications than relevant txs received from the peer while in sync
+   912 a tx announced twice by the trusted peer and not delivered was not asked for again at the peer's next
+       activity after the request window (C14)
    897 malformed trace *)
 Fixpoint contiguous_from (h : Z) (l : list Z) : bool :=
   match l with
@@ -949,12 +997,18 @@ Fixpoint contiguous_from (h : Z) (l : list Z) : bool :=
   | _ => false
   end.
 
-Fixpoint c19_monitor_from (i : Z) (held : bool) (tip : Z) (dl : list Z) (ops : list sop) (tr : list obs) : option (Z * obs) :=
+(* per announced tx: 1 asked, 2 also remembered (announced again inside the window), 3 the window has passed *)
+Fixpoint ph_get (t : Z) (l : list (Z * Z)) : Z := match l with [] => 0 | (t', p) :: l' => if t' =? t then p else ph_get t l' end.
+Fixpoint ph_set (t p : Z) (l : list (Z * Z)) : list (Z * Z) :=
+  match l with [] => [(t, p)] | (t', p') :: l' => if t' =? t then (t, p) :: l' else (t', p') :: ph_set t p l' end.
+
+Fixpoint c19_monitor_from (i : Z) (held : bool) (tip : Z) (dl : list Z) (ph : list (Z * Z)) (ops : list sop) (tr : list obs) : option (Z * obs) :=
   match ops, tr with
   | [], [] => None
   | o :: ops', ob :: tr' =>
-      let next h t := c19_monitor_from (i + 1) h t dl ops' tr' in
-      let next_d h t d := c19_monitor_from (i + 1) h t d ops' tr' in
+      let next h t := c19_monitor_from (i + 1) h t dl ph ops' tr' in
+      let next_d h t d := c19_monitor_from (i + 1) h t d ph ops' tr' in
+      let next_p p := c19_monitor_from (i + 1) held tip dl p ops' tr' in
       match o, ob with
       | SHold _, _ => next true tip
       | SRelease _, _ => next false tip
@@ -977,6 +1031,13 @@ Fixpoint c19_monitor_from (i : Z) (held : bool) (tip : Z) (dl : list Z) (ops : l
           if d =? 1 then (if existsb (Z.eqb t) dl then Some (i, [910]) else next_d held tip (t :: dl)) else next held tip
       | SApiTx t true, [_; _; d] =>
           if d =? 1 then (if existsb (Z.eqb t) dl then Some (i, [910]) else next_d held tip (t :: dl)) else next held tip
+      | SInv t, [_; n] =>
+          if 0 <? n then next_p (ph_set t (if ph_get t ph =? 0 then 1 else if ph_get t ph =? 1 then 2 else ph_get t ph) ph)
+          else next held tip
+      | STxAge, _ => next_p (map (fun e => if snd e =? 2 then (fst e, 3) else e) ph)
+      | SGetData t, [_; pong; n] =>
+          if (pong =? 1) && (ph_get t ph =? 3) then (if n <? 2 then Some (i, [912]) else next_p (ph_set t 1 ph))
+          else next held tip
       | SDelivered k, [_; n] => if n <? k then Some (i, [911]) else next held tip
       | SApiResult, [_; fin; _; _; panics] =>
           if 0 <? panics then Some (i, [908]) else if (fin =? 0) && negb held then Some (i, [909]) else next held tip
@@ -986,7 +1047,7 @@ Fixpoint c19_monitor_from (i : Z) (held : bool) (tip : Z) (dl : list Z) (ops : l
       end
   | _, _ => Some (i, [897])
   end.
-Definition c19_monitor : checker sop := fun ops tr => c19_monitor_from 0 false 0 [] ops tr.
+Definition c19_monitor : checker sop := fun ops tr => c19_monitor_from 0 false 0 [] [] ops tr.
 
 
 (* ================================================================================================ *)
